@@ -1,6 +1,7 @@
 package main
 
 import (
+	"runtime/pprof"
 	"encoding/json"
 	"flag"
 	"fmt"
@@ -56,6 +57,17 @@ func main() {
 	if *prop == "" {
 		fmt.Fprintln(os.Stderr, "usage: govc -prop Cxx [-tier quick|thorough]")
 		os.Exit(2)
+	}
+	rc := 0
+	if pf := os.Getenv("GOVC_CPUPROFILE"); pf != "" {
+		f, err := os.Create(pf)
+		if err == nil {
+			pprof.StartCPUProfile(f)
+			rc = run()
+			pprof.StopCPUProfile()
+			f.Close()
+			os.Exit(rc)
+		}
 	}
 	os.Exit(run())
 }
@@ -128,6 +140,9 @@ func run() int {
 			}
 			if sc.NoLayout != "" {
 				outOfSchema = append(outOfSchema, sc.Type+": "+sc.NoLayout)
+			}
+			for _, r := range sc.Restrict {
+				outOfSchema = append(outOfSchema, sc.Type+": "+r)
 			}
 			if os.Getenv("GOVC_SHOW_SCHEMA") == sc.Type {
 				fmt.Fprintln(os.Stderr, sc.MarshalContractText())
